@@ -116,6 +116,8 @@ structure GGhost where
   clock : Int := 0
   /-- packets delivered to the closed stand-in so far -/
   closedPkts : Nat := 0
+  /-- connection IDs a second connection registered after the first one closed -/
+  second : List Bytes := []
 deriving Repr
 
 def GGhost.live (g : GGhost) : List Bytes :=
@@ -133,8 +135,13 @@ def routeMonitors (g : GGhost) (routes : List (Bytes × String)) : List Fail :=
       [("routes_exact", "-", s!"{conn.length} IDs are routed to the connection, {g.live.length} are issued and not expired")]) ++
     (if other.isEmpty then [] else [("routes_exact", "-", "a closed stand-in is registered while the connection is alive")])
   else
-    let pending := g.closedIDs.filter fun _ => g.clock < g.deadline
+    -- the second connection's entries must survive the first connection's expiry
+    let lost := g.second.filter fun i => !routes.contains (i, "conn2")
+    let routes := routes.filter fun kv => !(kv.2 == "conn2" && g.second.contains kv.1)
+    let pending := g.closedIDs.filter fun i => g.clock < g.deadline && !g.second.contains i
     let want := if g.closedLocal then "local" else "remote"
+    (lost.map fun _ => ("expiry_keeps_foreign_entry", "-",
+      "the routing entry of the second connection is gone (or not its own) after the closed connection's expiry")) ++
     (if (routes.any (·.2 == "conn")) then [("clean_after_close", "-", "an ID is still routed to the closed connection")] else []) ++
     (if sameSet (routes.map (·.1)) pending then [] else
       [("clean_after_close", "-", s!"{routes.length} IDs registered after close, expected {pending.length}")]) ++
